@@ -115,9 +115,10 @@ SIM = {"quick": [("MC_sim.cfg", 400, 120)], "thorough": [("MC_sim.cfg", 8000, 16
 TWINS = {"quick": 150, "thorough": 3000}
 
 SPECIFIC = {
+    "C01": ["legality", "shapes"],
     "C04": ["vectors", "inbound"],
     "C08": ["vectors", "readersim"],
-    "C09": ["shapes", "arenasim"],
+    "C09": ["shapes", "legality", "arenasim"],
     "C19": ["legality"],
     "C11": ["vectors"],
     "C12": ["readersim"],
